@@ -7,6 +7,7 @@ CONSTANTS
   ConsumerSet = {"c1", "c2"}
   Coords = {"A", "X"}
   OpKinds = {"CreateStream", "DeleteStream", "Pause", "Resume"}
+  Variants = {"plain", "custom"}
   MaxOps = 4
   MaxSnaps = 1
   MaxRestarts = 1
